@@ -12,11 +12,17 @@ import aiohomekit.controller.ble.client as bleclient
 ID = "C15"
 RULE = ("item lists: types 0..255 x value lengths exhaustive over {0,1,2,254,255,256,257,509,510,511,765,766} for lists of <=3 items "
         "(with/without separators) + random <=2000; byte strings: all of length <=2 over all bytes (sampled per tier), all of length <=4 over a "
-        "6-symbol alphabet, random and mutation-based beyond; with/without 'expected' filter; BLE reassembly: random splits into <=60 pieces. "
+        "6-symbol alphabet, random and mutation-based beyond; with/without 'expected' filter; BLE reassembly: random splits into <=60 pieces; "
+        "BLE driver: drive_pairing_state_machine over the real PDU layer with the real pair-setup/pair-verify generators (reference accessory) and "
+        "scripted state machines (1-4 round trips, real and random non-empty expected lists) against a GATT accessory that answers unfragmented or as "
+        "FragmentData* FragmentLast with every fragment size 1..46 on a short response, boundary sizes around 255 on a 409-byte one, random cuts, "
+        "empty fragments, <=50 pieces, MTUs 20..512 in both directions. "
         "non-trivial = distinct (stream, outcome class, shape) where shape is the tuple of (type, length) pairs or the input length bucket")
 TRUSTED = ["CPython bytearray/list semantics"]
 ASSUMPTIONS = ["model mirrors TLV.encode_list/decode_bytearray/_pairing_char_write; tie is differential (this run's counts in coverage)",
-               "the PDU layer under _pairing_char_write (char_write) is replaced by a scripted responder; it is covered by C17"]
+               "reasm stream: the PDU layer under _pairing_char_write (char_write) is replaced by a scripted responder; it is covered by C17",
+               "drive stream: oracle only (no model); only write_gatt_char/read_gatt_char are faked; the driver may hand the state machine items "
+               "outside its expected list or not (IP/CoAP filter, BLE does not) - both are accepted, every expected type must be exact"]
 EXPLANATION = "Lean theorems C15_* over the model of the codec; model tied to the code by differential streams enc/dec/reasm"
 
 LENS = [0, 1, 2, 254, 255, 256, 257, 509, 510, 511, 765, 766]
@@ -294,6 +300,462 @@ def gen_reasm(ctx: Ctx):
         yield resps
 
 
+# ---- stream drive: the real BLE driver of the pairing state machines (drive_pairing_state_machine -> _pairing_char_write ->
+# char_write -> ble_request -> PDU layer) against a scripted HAP-BLE accessory behind a fake GATT radio.  The state machine
+# yields (request items, NON-EMPTY expected list) the way the generators of aiohomekit.protocol do; the accessory hands its
+# pairing TLV out whole or as FragmentData* FragmentLast pieces and waits for the empty-FragmentData acknowledgements.
+REAL_EXPECTED = [[6, 7, 3, 2], [6, 7, 4, 5], [6, 7, 5], [6, 7, 3, 5], [6, 7]]  # the lists the real generators yield
+MTUS = [20, 23, 50, 100, 182, 244, 512]
+MAX_PIECES = 50  # the driver gives up after 50 GATT round trips for one response; longer trains are not judged here
+
+
+class _Runaway(Exception):
+    pass
+
+
+class _Char:
+    uuid = "0000004c-0000-1000-8000-0026bb765291"
+    handle = 7
+    max_write_without_response_size = 0
+
+    def __init__(self, wwr):
+        self.properties = ["read", "write-without-response"] if wwr else ["read", "write"]
+
+
+def split_plan(L, plan):
+    """piece lengths for an L-byte pairing TLV, or None = not fragmented; never more than MAX_PIECES pieces"""
+    mode = plan["mode"]
+    if mode == "whole":
+        return None
+    if mode == "size":
+        e = plan.get("empty")
+        room = MAX_PIECES - (1 if e else 0)
+        k = max(int(plan["k"]), 1, -(-L // room))
+        sizes = [min(k, L - o) for o in range(0, L, k)] or [0]
+        if e == "first":
+            sizes.insert(0, 0)
+        elif e == "last":
+            sizes.append(0)
+        elif e == "mid":
+            sizes.insert(len(sizes) // 2, 0)
+        return sizes
+    cuts = sorted(min(L, L * int(f) // 1000) for f in plan["fracs"])[:MAX_PIECES - 1]
+    pts = [0] + cuts + [L]
+    return [b - a for a, b in zip(pts, pts[1:])]
+
+
+class GattAccessory:
+    """fake radio (write_gatt_char / read_gatt_char of one pairing characteristic) + HAP-BLE accessory: reassembles the
+    request PDUs itself, takes the written value out of the request body, answers through `responder` and hands the answer
+    out according to the fragmentation plan of the round; keeps its own book of every write it saw"""
+    address = "AA:BB:CC:00:15:07"
+
+    def __init__(self, responder, plans, mtu, resp_mtu, wwr, iid):
+        self.responder = responder
+        self.plans = plans
+        self.mtu = mtu
+        self.resp_mtu = resp_mtu
+        self.char = _Char(wwr)
+        self.iid = iid
+        self.rounds = []  # dicts: request, payload, pieces (None = whole), handed, acks, abandoned
+        self.anomalies = []
+        self.partial = None
+        self.want = 0
+        self.tid = 0
+        self.reads = []
+        self.nwrites = 0
+
+    async def get_characteristic(self, service_uuid, characteristic_uuid, iid=None):
+        return self.char
+
+    async def get_characteristic_iid(self, char):
+        return self.iid
+
+    def determine_fragment_size(self, additional_overhead_size, handle):
+        return self.mtu - additional_overhead_size
+
+    async def write_gatt_char(self, handle, data, response=None):
+        self.nwrites += 1
+        if self.nwrites > 5000:
+            raise _Runaway()
+        data = bytes(data)
+        if self.partial is None:
+            if len(data) < 5 or data[0] & 0x80:
+                self.anomalies.append(f"GATT write {hx(data)[:40]} is not the start of a request PDU")
+                return
+            self.tid = data[2]
+            if len(data) >= 7:
+                self.want = int.from_bytes(data[5:7], "little")
+                self.partial = bytearray(data[7:])
+            else:
+                self.want = 0
+                self.partial = bytearray()
+        else:
+            if len(data) < 2 or not data[0] & 0x80 or data[1] != self.tid:
+                self.anomalies.append(f"GATT write {hx(data)[:40]} is not a continuation of transaction {self.tid}")
+                return
+            self.partial += data[2:]
+        if len(self.partial) < self.want:
+            return
+        body = bytes(self.partial)
+        self.partial = None
+        self._on_request(body)
+
+    def _status(self, code):
+        self.reads = [bytes([0x02, self.tid, code, 0, 0])]
+
+    def _on_request(self, body):
+        items = ref_read(body)
+        value = None if items is None else {t: bytes(v) for t, v in items}.get(1)
+        if value is None:
+            self.anomalies.append(f"request body {hx(body)[:60]} carries no value")
+            return self._status(6)
+        cur = self.rounds[-1] if self.rounds else None
+        pending = cur is not None and cur["pieces"] is not None and cur["handed"] < len(cur["pieces"])
+        if ref_read(value) == [[12, b""]]:
+            if not pending:
+                self.anomalies.append("fragment acknowledgement written while no fragment was outstanding")
+                return self._status(6)
+            cur["acks"] += 1
+            return self._hand(cur)
+        if pending:
+            cur["abandoned"] = True
+            self.anomalies.append(f"round {len(self.rounds)}: new request written after {cur['handed']} of {len(cur['pieces'])} fragments")
+        i = len(self.rounds)
+        if i >= len(self.plans):
+            self.anomalies.append(f"request {i + 1} written, the exchange has only {len(self.plans)} round trips")
+            return self._status(6)
+        payload = bytes(self.responder(i, value))
+        sizes = split_plan(len(payload), self.plans[i])
+        pieces = None
+        if sizes is not None:
+            pieces, o = [], 0
+            for s in sizes:
+                pieces.append(payload[o:o + s])
+                o += s
+        cur = {"request": value, "payload": payload, "pieces": pieces, "handed": 0, "acks": 0, "abandoned": False}
+        self.rounds.append(cur)
+        self._hand(cur)
+
+    def _hand(self, cur):
+        if cur["pieces"] is None:
+            value = cur["payload"]
+        else:
+            j = cur["handed"]
+            value = ref_write([(13 if j == len(cur["pieces"]) - 1 else 12, cur["pieces"][j])])
+            cur["handed"] += 1
+        body = ref_write([(1, value)])
+        n = self.resp_mtu
+        self.reads = [bytes([0x02, self.tid, 0]) + len(body).to_bytes(2, "little") + body[:n - 5]]
+        for o in range(n - 5, len(body), n - 2):
+            self.reads.append(bytes([0x82, self.tid]) + body[o:o + n - 2])
+
+    async def read_gatt_char(self, handle):
+        if not self.reads:
+            self.anomalies.append("GATT read with no response outstanding")
+            return bytes([0x02, self.tid, 6, 0, 0])
+        return self.reads.pop(0)
+
+
+def _snap(resp):
+    try:
+        return {int(k): bytes(v) for k, v in dict(resp).items()}
+    except Exception:  # noqa: BLE001
+        return repr(resp)[:200]
+
+
+def _tap(gen, log):
+    """transparent wrapper of a pairing state machine: the harness's own record of what it yielded and what it was sent"""
+    try:
+        out = gen.send(None)
+        while True:
+            req, exp = out
+            log.append(("yield", [(int(t), bytes(v)) for t, v in req], [int(x) for x in exp]))
+            resp = yield out
+            log.append(("recv", _snap(resp)))
+            out = gen.send(resp)
+    except StopIteration as e:
+        return e.value
+
+
+def _scripted_machine(rounds, token):
+    for r in rounds:
+        yield ([(t, bytearray(unhex(v))) for t, v in r["request"]], list(r["expected"]))
+    return token
+
+
+def unhex(s):
+    return b"" if s == "-" else bytes.fromhex(s)
+
+
+def _drive_setup(case):
+    """(state machine, responder, judge(result) -> None | what is wrong) for one case"""
+    import random as _random
+    from harness import refacc
+    from aiohomekit import protocol as proto
+    kind = case["kind"]
+    r = _random.Random(case.get("seed", 0))
+
+    def rb(n):
+        return bytes(r.randrange(256) for _ in range(n))
+
+    extra = [(19, b"\x10\x00\x00\x00")] if case.get("extra") else []  # kTLVType_Flags, as HAP R2 accessories send
+    if kind == "synthetic":
+        token = ("finished", len(case["rounds"]))
+        payloads = [ref_write([(t, unhex(v)) for t, v in rd["response"]]) for rd in case["rounds"]]
+        return (_scripted_machine(case["rounds"], token), lambda i, value: payloads[i],
+                lambda res: None if res == token else f"drive_pairing_state_machine returned {res!r:.80}, the state machine returned {token!r}")
+    if kind == "setup1":
+        salt, B = rb(16), bytes([r.randrange(1, 256)]) + rb(383)
+        m2 = [(6, b"\x02"), (3, B), (2, salt)]
+        r.shuffle(m2)
+
+        def judge(res):
+            try:
+                ok = (bytes(res[0]), bytes(res[1])) == (salt, B)
+            except Exception:  # noqa: BLE001
+                ok = False
+            return None if ok else f"pair-setup part 1 returned {res!r:.80} instead of the salt and the 384-byte SRP public key the accessory sent"
+        return proto.perform_pair_setup_part1(with_auth=bool(case.get("with_auth"))), (lambda i, value: refacc.tlv(m2 + extra)), judge
+    if kind == "verify":
+        ident = refacc.Identity(rb)
+        acc = refacc.VerifyAccessory(ident, rb(32))
+        state = {}
+
+        def responder(i, value):
+            items = ref_read(value) or []
+            if i == 0:
+                d = {t: bytes(v) for t, v in items}
+                return refacc.tlv(acc.m2(d.get(3, b"\0" * 32)) + extra)
+            state["m3"] = acc.check_m3(items)
+            return refacc.tlv([(6, b"\x04")] if state["m3"] else [(6, b"\x04"), (7, b"\x02")])
+
+        def judge(res):
+            if not state.get("m3"):
+                return "the reference accessory rejected the M3 it received"
+            try:
+                derive = res[1]
+                got = (derive(b"Control-Salt", b"Control-Write-Encryption-Key"), derive(b"Control-Salt", b"Control-Read-Encryption-Key"))
+            except Exception as e:  # noqa: BLE001
+                return f"pair-verify result unusable: {type(e).__name__}"
+            return None if (bytes(got[0]), bytes(got[1])) == acc.keys()[:2] else "pair-verify session keys differ from the accessory's"
+        return proto.get_session_keys(ident.pairing_data(connection="BLE")), responder, judge
+    if kind == "setup2":
+        from cryptography.hazmat.primitives.asymmetric import ed25519
+        from cryptography.hazmat.primitives.ciphers.aead import ChaCha20Poly1305
+        pin = "%03d-%02d-%03d" % (r.randrange(1000), r.randrange(100), r.randrange(1000))
+        srv = refacc.SrpServer(pin, rb(16), int.from_bytes(rb(32), "big") | 1)
+        ltsk = ed25519.Ed25519PrivateKey.from_private_bytes(rb(32))
+        ltpk = ltsk.public_key().public_bytes(**refacc.RAW)
+        acc_id = b"12:34:56:00:15:0A"
+        state = {}
+
+        def responder(i, value):
+            d = {t: bytes(v) for t, v in (ref_read(value) or [])}
+            if i == 0:
+                srv.on_A(d.get(3, b"\x01"))
+                state["proof"] = d.get(4) == srv.M1
+                return refacc.tlv(([(6, b"\x04"), (4, srv.M2)] if state["proof"] else [(6, b"\x04"), (7, b"\x02")]) + extra)
+            key = refacc.hk(srv.K, b"Pair-Setup-Encrypt-Salt", b"Pair-Setup-Encrypt-Info")
+            try:
+                sub = refacc.untlv(ChaCha20Poly1305(key).decrypt(b"\0\0\0\0PS-Msg05", d.get(5, b""), b""))
+                iosx = refacc.hk(srv.K, b"Pair-Setup-Controller-Sign-Salt", b"Pair-Setup-Controller-Sign-Info")
+                ed25519.Ed25519PublicKey.from_public_bytes(sub[3]).verify(sub[10], iosx + sub[1] + sub[3])
+                state["m5"] = True
+            except Exception:  # noqa: BLE001
+                state["m5"] = False
+                return refacc.tlv([(6, b"\x06"), (7, b"\x02")])
+            accx = refacc.hk(srv.K, b"Pair-Setup-Accessory-Sign-Salt", b"Pair-Setup-Accessory-Sign-Info")
+            sub = refacc.tlv([(1, acc_id), (3, ltpk), (10, ltsk.sign(accx + acc_id + ltpk))])
+            return refacc.tlv([(6, b"\x06"), (5, ChaCha20Poly1305(key).encrypt(b"\0\0\0\0PS-Msg06", sub, b""))])
+
+        def judge(res):
+            if state.get("proof") is False:
+                return "skip"  # SRP proof disagreement is C02's subject, not judged here
+            if res is None:
+                return "no result"
+            if not state.get("m5"):
+                return "the reference accessory rejected the M5 it received"
+            try:
+                ok = res["AccessoryPairingID"] == acc_id.decode() and res["AccessoryLTPK"] == ltpk.hex()
+            except Exception:  # noqa: BLE001
+                ok = False
+            return None if ok else f"pair-setup part 2 returned {res!r:.80}, not the accessory's identifier and long-term key"
+        return proto.perform_pair_setup_part2(pin, "c15-controller", bytearray(srv.salt), bytearray(refacc.PAD(srv.B))), responder, judge
+    raise ValueError("unknown drive kind " + str(kind))
+
+
+def case_plans(case):
+    return [rd["plan"] for rd in case["rounds"]] if case["kind"] == "synthetic" else list(case["plans"])
+
+
+def run_drive(ctx, case):
+    """one exchange through the real driver; oracles from the accessory's and the tap's own books only"""
+    ctx.evaluations += 1
+    kind = case["kind"]
+    machine, responder, judge = _drive_setup(case)
+    acc = GattAccessory(responder, case_plans(case), case["mtu"], case["resp_mtu"], bool(case.get("wwr")), case.get("iid", 16))
+    log = []
+    exc = None
+    result = None
+    try:
+        result = asyncio.run(bleclient.drive_pairing_state_machine(acc, "0000004c-0000-1000-8000-0026bb765291" if kind.startswith("setup") else "0000004e-0000-1000-8000-0026bb765291", _tap(machine, log)))
+    except _Runaway:
+        exc = "runaway"
+    except Exception as e:  # noqa: BLE001
+        exc = type(e).__name__ + ": " + str(e)[:120]
+    yields = [e for e in log if e[0] == "yield"]
+    recvs = [e for e in log if e[0] == "recv"]
+    npieces = tuple(1 if rd["pieces"] is None else min(len(rd["pieces"]), MAX_PIECES + 1) for rd in acc.rounds)
+    for rd in acc.rounds:
+        n = 0 if rd["pieces"] is None else len(rd["pieces"])
+        ctx.dist["drive:" + ("whole" if n == 0 else "pieces=1" if n == 1 else "pieces=2-5" if n <= 5 else "pieces=6-49" if n < 50 else "pieces=50")] += 1
+    ctx.dist[f"drive:{kind}:" + ("exc" if exc else "ok")] += 1
+    ctx.nontrivial.add(("drive", kind, bool(exc), npieces, tuple(len(y[2]) for y in yields)))
+
+    def describe(i):
+        rd = acc.rounds[i]
+        how = "unfragmented" if rd["pieces"] is None else f"as {len(rd['pieces'])} fragment(s) of sizes {[len(p) for p in rd['pieces']][:8]}"
+        return f"{kind} round trip {i + 1} (expected={yields[i][2] if i < len(yields) else '?'}): accessory answers with a {len(rd['payload'])}-byte pairing TLV {how}"
+
+    # 1. what the state machine was handed: the items of the accessory's TLV (every expected type exactly, nothing invented)
+    for i, rd in enumerate(acc.rounds):
+        if i >= len(recvs) or i >= len(yields):
+            break
+        whole = ref_read(rd["payload"])
+        want = {t: bytes(v) for t, v in whole}
+        got = recvs[i][1]
+        expected = yields[i][2]
+        bad = None
+        if not isinstance(got, dict):
+            bad = f"the state machine was sent {got}"
+        else:
+            for t in expected:
+                if got.get(t) != want.get(t):
+                    bad = (f"type {t} is " + ("missing" if t not in got else f"{len(got[t])} bytes {hx(got[t])[:24]}") + ", the accessory sent "
+                           + ("no such item" if t not in want else f"{len(want[t])} bytes {hx(want[t])[:24]}"))
+                    break
+            if bad is None:
+                for t, v in got.items():
+                    if want.get(t) != v:
+                        bad = f"type {t} ({len(v)} bytes) was handed to the state machine but is not what the accessory sent"
+                        break
+        if bad:
+            ctx.violation("drive/wrong-result", f"{describe(i)}; the state machine received {sorted(got) if isinstance(got, dict) else got} after {1 + rd['acks']} write(s): {bad}", case)
+            return
+    # 2. the bytes the accessory was written: the canonical TLV8 encoding of the yielded request, one request per yield
+    for i, rd in enumerate(acc.rounds):
+        if i < len(yields) and rd["request"] != ref_write(yields[i][1]):
+            ctx.violation("drive/request-bytes", f"{kind} round trip {i + 1}: the accessory was written {hx(rd['request'])[:80]} ({len(rd['request'])} bytes), the TLV8 encoding of the request is {hx(ref_write(yields[i][1]))[:80]}", case)
+            return
+    # 3. every fragment fetched with exactly one empty-FragmentData acknowledgement, no response used twice or dropped
+    for i, rd in enumerate(acc.rounds):
+        if rd["pieces"] is not None and (rd["abandoned"] or rd["handed"] != len(rd["pieces"]) or rd["acks"] != len(rd["pieces"]) - 1):
+            ctx.violation("drive/ack-count", f"{describe(i)}; the controller fetched {rd['handed']} of them with {rd['acks']} acknowledgement(s)", case)
+            return
+    if acc.anomalies:
+        ctx.violation("drive/ack-count", f"{kind}: {acc.anomalies[0]}", case)
+        return
+    # 4. outcome of the exchange with a conformant accessory
+    if judge(None) == "skip":
+        ctx.dist["drive:setup2-srp-proof-rejected(not judged)"] += 1
+        return
+    if exc:
+        ctx.violation("drive/" + exc.split(":")[0], f"{kind} exchange of {len(acc.plans)} round trip(s) with a conformant accessory ended with {exc}", case)
+        return
+    if len(acc.rounds) != len(yields) or len(recvs) != len(yields):
+        ctx.violation("drive/ack-count", f"{kind}: state machine yielded {len(yields)} request(s), accessory saw {len(acc.rounds)}, state machine was answered {len(recvs)} time(s)", case)
+        return
+    verdict = judge(result)
+    if verdict:
+        ctx.violation("drive/wrong-result", f"{kind}: {verdict}", case)
+
+
+def gen_plan(rng, L):
+    mode = rng.randrange(7)
+    if mode == 0:
+        return {"mode": "whole"}
+    if mode <= 4:
+        if L <= 48 and rng.random() < 0.7:
+            k = rng.choice([1, 1, 2, 3, 5])
+        else:
+            k = rng.choice([-(-L // 50), -(-L // 49), 20, 50, 100, 180, 254, 255, 256, 257, 300, 512, max(L - 1, 1), L, L + 1])
+        return {"mode": "size", "k": max(k, 1), "empty": rng.choice([None, None, None, "first", "mid", "last"])}
+    n = rng.choice([1, 2, 3, 6, 20, 49])
+    fr = [rng.randrange(0, 1001) for _ in range(n)]
+    if rng.random() < 0.3:
+        fr.append(rng.choice(fr))  # an empty fragment in the middle
+    if rng.random() < 0.2:
+        fr.append(1000)  # empty FragmentLast
+    return {"mode": "cuts", "fracs": fr}
+
+
+def gen_drive_cases(ctx: Ctx):
+    rng = ctx.rng
+
+    def base(kind):
+        return {"stream": "drive", "kind": kind, "mtu": rng.choice(MTUS), "resp_mtu": rng.choice(MTUS), "wwr": rng.random() < 0.3,
+                "iid": rng.choice([1, 16, 255, 256, 65535])}
+
+    def one(resp, expected, plan):
+        c = base("synthetic")
+        c["rounds"] = [{"request": [[6, "01"], [0, "00"]], "expected": expected, "response": [[t, hx(v)] for t, v in resp], "plan": plan}]
+        return c
+
+    # every fragment size from 1 byte up for a short response, boundary sizes for a pair-setup sized one
+    small = [(6, b"\x02"), (3, bytes(range(40)))]
+    for k in range(1, 47):
+        yield one(small, [6, 7, 3, 2], {"mode": "size", "k": k, "empty": None})
+    big = [(6, b"\x02"), (3, bytes((i * 7 + 3) % 256 for i in range(384))), (2, bytes(range(16)))]
+    for k in (9, 10, 100, 180, 253, 254, 255, 256, 257, 408, 409, 410):
+        yield one(big, [6, 7, 3, 2], {"mode": "size", "k": k, "empty": rng.choice([None, "first", "mid", "last"])})
+    yield one(big, [6, 7, 3, 2], {"mode": "whole"})
+    # the real state machines against the reference accessory
+    for kind, n, rounds in (("setup1", ctx.budget(16, 300), 1), ("verify", ctx.budget(16, 300), 2), ("setup2", ctx.budget(5, 60), 2)):
+        lens = {"setup1": [409], "verify": [140, 3], "setup2": [69, 160]}[kind]
+        for _ in range(n):
+            c = base(kind)
+            c.update(seed=rng.randrange(1 << 30), extra=rng.random() < 0.3, with_auth=rng.random() < 0.5,
+                     plans=[gen_plan(rng, lens[i]) for i in range(rounds)])
+            yield c
+    # synthetic state machines: several round trips, real and random expected lists, items inside and outside of them
+    for _ in range(ctx.budget(260, 6000)):
+        c = base("synthetic")
+        c["rounds"] = []
+        tiny = rng.random() < 0.35
+        for _ in range(rng.choice([1, 1, 2, 3, 4])):
+            expected = list(rng.choice(REAL_EXPECTED)) if rng.random() < 0.7 else rng.sample([0, 1, 2, 3, 4, 5, 6, 7, 8, 9, 10, 11, 14, 19], rng.randrange(1, 6))
+            req, last = [], None
+            for _ in range(rng.randrange(1, 5)):
+                t = rng.choice([x for x in (0, 1, 2, 3, 4, 5, 6, 9, 10, 11, 14) if x != last])
+                last = t
+                req.append([t, hx(val(rng, rng.choice([0, 1, 1, 2, 8, 32, 64, 255, 256, 384, 600])))])
+            resp, last = [], None
+            for _ in range(rng.choice([0, 1, 2, 2, 3, 3, 4])):
+                pool = expected if rng.random() < 0.75 else [0, 1, 9, 10, 11, 14, 19, 255]
+                t = rng.choice(pool)
+                if t == last:
+                    continue
+                last = t
+                ln = 0 if t == 255 else rng.choice([0, 1, 1, 2, 5, 16] if tiny else [0, 1, 2, 16, 32, 64, 100, 254, 255, 256, 384, 510, 600])
+                resp.append([t, hx(val(rng, ln))])
+            L = len(ref_write([(t, unhex(v)) for t, v in resp]))
+            c["rounds"].append({"request": req, "expected": expected, "response": resp, "plan": gen_plan(rng, L)})
+        yield c
+
+
+def run_drive_stream(ctx, stop_at_first=False):
+    first = None
+    for case in gen_drive_cases(ctx):
+        if first is None:
+            first = case
+        run_drive(ctx, case)
+        if stop_at_first and ctx.violations:
+            return
+    if first is not None:
+        ctx.sample(first)
+
+
 # ---- the run
 def check_enc(ctx, items, out):
     ctx.evaluations += 1
@@ -370,6 +832,8 @@ def run(ctx: Ctx, driver: Driver):
         ctx.nontrivial.add(("reasm", out.split()[0], min(len(resps), 52)))
     ctx.sample(cases[0])
     compare_with_model(ctx, "reasm", cases, outs, lines, driver, canon=canon_reasm)
+    # stream drive (oracle only: the real driver and PDU layer against the scripted accessory)
+    run_drive_stream(ctx)
 
 
 def run_case(ctx, driver, c, record=False):
@@ -386,6 +850,8 @@ def run_case(ctx, driver, c, record=False):
         out = impl_dec(bs, c.get("expected"))
         check_dec(ctx, bs, c.get("expected"), out)
         compare_with_model(ctx, "dec", [c], [out], [f"tlv.dec {exp_str(c.get('expected'))} {hx(bs)}"], driver)
+    elif c["stream"] == "drive":
+        run_drive(ctx, c)
     else:
         resps = [bytes.fromhex(r) if r != "-" else b"" for r in c["responses"]]
         out = impl_reasm(resps)
@@ -417,3 +883,4 @@ def search(ctx: Ctx, driver: Driver, broken):
         check_reasm(ctx, resps, impl_reasm(resps), {"stream": "reasm", "responses": [hx(r) for r in resps]})
         if ctx.violations:
             return
+    run_drive_stream(ctx, stop_at_first=True)
